@@ -289,6 +289,116 @@ func (w *world) dropRevision(tr *vhlib.Trace, r *vhlib.Rand, _ int) {
 	}
 }
 
+// doReviseRenew puts two transactions for the same block into the pool: one that revises contract c on chain and one
+// that renews it (resolution `V2FileContractRenewal`, no rollover, new contract funded by the host wallet), so that the
+// block's diff for the contract carries both a revision and a resolution.
+func (w *world) doReviseRenew(tr *vhlib.Trace, ci int) {
+	op := fmt.Sprintf("reviserenew c=%d", ci)
+	if w.dead {
+		return
+	}
+	res := "ok"
+	if ci < 0 || ci >= len(w.cons) || w.cons[ci].v1 || !w.cons[ci].formed || w.cons[ci].resolved {
+		res = "nocontract"
+	} else {
+		c := w.cons[ci]
+		n := w.host
+		cs := n.cm.TipState()
+		basis, fce, err := n.con.V2FileContractElement(c.id)
+		switch {
+		case err != nil:
+			res = "noelement"
+		case cs.Index.Height+1 > fce.V2FileContract.ProofHeight:
+			res = "toolate"
+		default:
+			cur := fce.V2FileContract
+			rev := cur
+			rev.RevisionNumber = cur.RevisionNumber + 1000 // above anything the host holds off-chain
+			sh := cs.ContractSigHash(rev)
+			rev.HostSignature = w.hostKey.SignHash(sh)
+			rev.RenterSignature = w.renterKey.SignHash(sh)
+			revTxn := types.V2Transaction{FileContractRevisions: []types.V2FileContractRevision{{Parent: fce.Copy(), Revision: rev}}}
+			nc := types.V2FileContract{
+				ProofHeight:      cur.ProofHeight + 20,
+				ExpirationHeight: cur.ExpirationHeight + 20,
+				RenterOutput:     types.SiacoinOutput{Value: types.Siacoins(1), Address: n.w.Address()},
+				HostOutput:       types.SiacoinOutput{Value: types.Siacoins(1), Address: n.w.Address()},
+				MissedHostValue:  types.Siacoins(1),
+				TotalCollateral:  types.Siacoins(1),
+				RenterPublicKey:  cur.RenterPublicKey,
+				HostPublicKey:    cur.HostPublicKey,
+			}
+			nsh := cs.ContractSigHash(nc)
+			nc.HostSignature = w.hostKey.SignHash(nsh)
+			nc.RenterSignature = w.renterKey.SignHash(nsh)
+			renewal := types.V2FileContractRenewal{
+				FinalRenterOutput: cur.RenterOutput,
+				FinalHostOutput:   cur.HostOutput,
+				NewContract:       nc,
+			}
+			rsh := cs.RenewalSigHash(renewal)
+			renewal.HostSignature = w.hostKey.SignHash(rsh)
+			renewal.RenterSignature = w.renterKey.SignHash(rsh)
+			renTxn := types.V2Transaction{FileContractResolutions: []types.V2FileContractResolution{{Parent: fce.Copy(), Resolution: &renewal}}}
+			cost := nc.RenterOutput.Value.Add(nc.HostOutput.Value).Add(cs.V2FileContractTax(nc))
+			if _, err := n.cm.AddV2PoolTransactions(basis, []types.V2Transaction{revTxn}); err != nil {
+				res = "revrej_" + clip(err.Error())
+			} else if fb, toSign, err := n.w.FundV2Transaction(&renTxn, cost, false); err != nil {
+				res = "nofunds"
+			} else {
+				n.w.SignV2Inputs(&renTxn, toSign)
+				if _, err := n.cm.AddV2PoolTransactions(fb, []types.V2Transaction{renTxn}); err != nil {
+					n.w.ReleaseInputs(nil, []types.V2Transaction{renTxn})
+					res = "renrej_" + clip(err.Error())
+				}
+			}
+		}
+	}
+	key := res
+	if len(key) > 6 {
+		key = key[:6]
+	}
+	tr.Count("reviserenew:" + key)
+	w.finish(tr, op, "reviserenew="+res)
+}
+
+// dropRenewal: a block revises and renews one contract, then (mostly) exactly that block is reorged out at depth
+// 1..batch without re-confirming the two transactions.
+func (w *world) dropRenewal(tr *vhlib.Trace, r *vhlib.Rand) {
+	pick := func() int {
+		tipH := w.host.cm.Tip().Height
+		for i := len(w.cons) - 1; i >= 0; i-- {
+			c := w.cons[i]
+			if !c.v1 && c.formed && !c.resolved && tipH+3 <= c.fc.ProofHeight {
+				return i
+			}
+		}
+		return -1
+	}
+	ci := pick()
+	if ci < 0 {
+		w.doForm(tr, uint64(16+r.Intn(8)))
+		w.doMine(tr, 1, "host", true)
+		if ci = pick(); ci < 0 {
+			return
+		}
+	}
+	w.doReviseRenew(tr, ci)
+	w.doMine(tr, 1, "host", true)
+	extra := 0
+	if w.batch > 1 && w.batch <= 3 && r.Chance(1, 2) {
+		extra = r.Intn(w.batch)
+		if extra > 0 {
+			w.doMine(tr, extra, "void", false)
+		}
+	}
+	if r.Chance(5, 6) {
+		d := 1 + extra
+		w.doReorg(tr, d, d+1+r.Intn(2), "void", false)
+		w.doMine(tr, 1, "host", false)
+	}
+}
+
 // doTwin builds a second complete host node that holds the same contracts (same formation sets, same revisions,
 // same sector data) but is fed only the blocks of the final best chain, through the real index sync, and reports its
 // contract views next to the living node's (C01: contract chain state is a function of the best chain).
